@@ -17,9 +17,10 @@ META = {
         'wrap_impure_func outermost and the COMPILING flag as first extra '
         'input); (mask) the impure wrapper returns schedula.NONE while the flag '
         'is set and the builder prepends extra inputs and skips NONE defaults; '
-        '(nomemo) no memoising decorator lies on a call path from a volatile '
+        ' (nomemo) no memoising decorator lies on a call path from a volatile '
         'registration to its source; (sites) every pre-evaluation site whose '
-        'solution is reused as blockers= runs with the COMPILING flag set.'),
+        'solution is reused as blockers= runs with the COMPILING flag set.'
+        ' (refs) the load-time evaluation of defined names keeps only range references, never computed values; (direct) the compiled function of a cell is called from CellWrapper.__call__ only - loading code never evaluates a cell itself; (randint) the RANDBETWEEN core returns a value that is integral by construction, a half-open draw adds one to its upper limit, and the empty-range guard tests the bounds the draw uses.'),
     'not_decided': (
         'Snapshot consistency inside one calculation (schedula scheduling), the '
         'numeric range of RAND/RANDBETWEEN, and that nothing else caches a '
